@@ -41,3 +41,79 @@ package collect
 
 //@ lemma C10.stress-nested-keep props C10 : forall id string, m uint64, n uint64 :: 1 <= m && m <= n && keepStress(id, n) ==> keepStress(id, m)
 //@ lemma C10.stress-rate1-keeps-all props C10 : forall id string :: keepStress(id, 1) && keepStress(id, 0)
+
+// ---- C15: stress relief switches with hysteresis on a bounded stress level
+
+//@ contract collect.clamp props C15
+//@   ensures[inside-range] min <= max ==> min <= result && result <= max
+//@   ensures[identity-inside] min <= f && f <= max ==> result == f
+//@   modifies nothing
+
+//@ contract collect.(*StressRelief).ratio props C15
+//@   requires s != nil
+//@   ensures[unit-interval] 0 <= result && result <= 1
+//@   modifies nothing
+
+//@ contract collect.(*StressRelief).linear props C15
+//@   requires s != nil
+//@   ensures[unit-interval] 0 <= result && result <= 1
+//@   modifies nothing
+
+//@ contract collect.(*StressRelief).sqrt props C15
+//@   requires s != nil
+//@   ensures[unit-interval] 0 <= result && result <= 1
+//@   modifies nothing
+
+//@ contract collect.(*StressRelief).square props C15
+//@   requires s != nil
+//@   ensures[unit-interval] 0 <= result && result <= 1
+//@   modifies nothing
+
+//@ contract collect.(*StressRelief).sigmoid props C15
+//@   requires s != nil
+//@   ensures[just-about-unit-interval] -0.0000001 <= result && result <= 1.0000001
+//@   modifies nothing
+
+// The cluster level: every level at most 100 in, at most 100 out; expired reports leave the table.
+//@ lemma C15.square-bound props C15 : forall x uint :: x <= 100 ==> toInt(x) * toInt(x) <= 10000
+//@ contract collect.(*StressRelief).clusterStressLevel props C15
+//@   arith math
+//@   assert uses C15.square-bound
+//@   requires s != nil
+//@   requires[levels-bounded] localLevel <= 100 && (forall k string :: in(s.stressLevels, k) ==> s.stressLevels[k].level <= 100)
+//@   ensures[bounded] result <= 100
+//@   ensures[own-report-recorded-or-expired] forall k string :: in(s.stressLevels, k) ==> (in(old(s.stressLevels), k) || k == s.hostID)
+//@   ensures[levels-stay-bounded] forall k string :: in(s.stressLevels, k) ==> s.stressLevels[k].level <= 100
+//@   loop 1 invariant[sum-bound] 0 <= availablePeers && 0 <= total && total <= toReal(availablePeers) * 10000
+//@   loop 1 invariant[table] forall k string :: in(s.stressLevels, k) ==> s.stressLevels[k].level <= 100 && (in(old(s.stressLevels), k) || k == s.hostID)
+//@   modifies s.stressLevels
+
+// One step of the relief state machine (Monitor mode), as the statement words it.
+//@ spec reliefOn(was bool, level uint, activate uint) bool := was || level >= activate
+//@ spec nextStayOn(was bool, stay time.Time, level uint, activate uint, deactivate uint, now time.Time, minD time.Duration) time.Time := ite(reliefOn(was, level, activate) && level >= deactivate, now.Add(minD), stay)
+//@ spec nextStressed(was bool, stay time.Time, level uint, activate uint, deactivate uint, now time.Time, minD time.Duration) bool := reliefOn(was, level, activate) && !(level < deactivate && now.After(nextStayOn(was, stay, level, activate, deactivate, now, minD)))
+
+//@ contract collect.(*StressRelief).Recalc props C15 localcalls
+//@   arith math
+//@   assert callresults 0 <= result && result <= 1.0000001
+//@   requires s != nil
+//@   requires[peer-levels-bounded] forall k string :: in(s.stressLevels, k) ==> s.stressLevels[k].level <= 100
+//@   let now = clockNow(s.Clock)
+//@   ensures[level-is-larger-of-own-and-cluster] s.overallStressLevel == max(clusterStressLevel, result)
+//@   ensures[level-bounded] result <= 100 && s.overallStressLevel <= 100
+//@   ensures[never-mode] s.mode == Never ==> !s.stressed
+//@   ensures[always-mode] s.mode == Always ==> s.stressed
+//@   ensures[monitor-stay-on] s.mode == Monitor ==> s.stayOnUntil == nextStayOn(old(s.stressed), old(s.stayOnUntil), s.overallStressLevel, s.activateLevel, s.deactivateLevel, now, s.minDuration)
+//@   ensures[monitor-switch] s.mode == Monitor ==> s.stressed == nextStressed(old(s.stressed), old(s.stayOnUntil), s.overallStressLevel, s.activateLevel, s.deactivateLevel, now, s.minDuration)
+//@   ensures[thresholds-untouched] s.mode == old(s.mode) && s.activateLevel == old(s.activateLevel) && s.deactivateLevel == old(s.deactivateLevel) && s.minDuration == old(s.minDuration)
+//@   loop 1 invariant 0 <= maximumLevel && maximumLevel <= 100.00001
+//@   modifies s.overallStressLevel, s.reason, s.formula, s.stressed, s.stayOnUntil, s.stressLevels
+
+// History lemma (induction step over Recalc calls in Monitor mode; thresholds constant,
+// deactivate <= activate as documented): with ghost lastHigh = the last instant at which
+// relief was on and the level was at or above DeactivationLevel,
+//   invariant: stressed ==> stayOnUntil == lastHigh + minDuration
+// and relief switches off only below DeactivationLevel and more than MinimumActivationDuration
+// after lastHigh; it switches on exactly when the level reaches ActivationLevel.
+//@ lemma C15.hysteresis-step props C15 : forall was bool, stay time.Time, lastHigh time.Time, level uint, act uint, deact uint, now time.Time, minD time.Duration :: deact <= act && (was ==> stay == lastHigh.Add(minD)) ==> (nextStressed(was, stay, level, act, deact, now, minD) ==> nextStayOn(was, stay, level, act, deact, now, minD) == ite(reliefOn(was, level, act) && level >= deact, now, lastHigh).Add(minD)) && (was && !nextStressed(was, stay, level, act, deact, now, minD) ==> level < deact && now.Sub(lastHigh) > minD) && (!was ==> (nextStressed(was, stay, level, act, deact, now, minD) == (level >= act)))
+//@ lemma C15.stays-on-while-high props C15 : forall was bool, stay time.Time, level uint, act uint, deact uint, now time.Time, minD time.Duration :: was && level >= deact ==> nextStressed(was, stay, level, act, deact, now, minD)
